@@ -95,6 +95,9 @@ func genC14(w *bufio.Writer, tier string, rng *rand.Rand) {
 					xs[i] = mn - rng.Float64()*bw
 				case 1: // exact edges
 					xs[i] = mn + float64(rng.Intn(nb+1))*bw
+					if rng.Intn(2) == 0 { // a tiny fraction of a bin width below / above an edge, far beyond rounding distance
+						xs[i] += bw * math.Pow(10, -float64(5+rng.Intn(9))) * float64(rng.Intn(2)*2-1)
+					}
 				case 2: // far outside
 					xs[i] = mn + (rng.Float64()*6-3)*width
 				case 3: // just around the top edge
@@ -128,6 +131,9 @@ func genC14(w *bufio.Writer, tier string, rng *rand.Rand) {
 					xs[i] = math.Pow(float64(b), -rng.Float64()/m)
 				case 1: // exact edges b^(j/m)
 					xs[i] = math.Pow(float64(b), float64(rng.Intn(nb+1))/m)
+					if rng.Intn(2) == 0 { // a tiny relative distance from an edge, far beyond rounding distance
+						xs[i] *= 1 + math.Pow(10, -float64(5+rng.Intn(7)))*float64(rng.Intn(2)*2-1)
+					}
 				case 2: // far below / above
 					xs[i] = math.Exp(rng.NormFloat64() * 8)
 				case 3:
